@@ -37,16 +37,36 @@ def compile_script(script_path: str) -> CompilerOutput:
     try:
         return _compile_script(script_path)
     finally:
-        # The helper modules of this program must not outlive its compilation: a
-        # later program importing a module of the same name from its own directory
-        # would silently get this program's.
+        # The helper modules and packages of this program must not outlive its
+        # compilation: a later program importing a module of the same name from its
+        # own directory would silently get this program's.
         own_dir = os.path.abspath(script_dir)
-        for name in set(sys.modules) - loaded_before:
-            path = getattr(sys.modules[name], "__file__", None)
-            if path and os.path.dirname(os.path.abspath(path)) == own_dir:
+        loaded = set(sys.modules) - loaded_before
+        own = {
+            name
+            for name in loaded
+            if "." not in name and _found_in(sys.modules[name], own_dir)
+        }
+        for name in loaded:
+            if name.split(".")[0] in own:
                 del sys.modules[name]
         if script_dir in sys.path:
             sys.path.remove(script_dir)
+
+
+def _found_in(module, directory: str) -> bool:
+    """Whether a top-level module or package was imported from the directory."""
+    path = getattr(module, "__file__", None)
+    if path:
+        location = os.path.dirname(os.path.abspath(path))
+        if hasattr(module, "__path__"):  # A package: the directory of __init__.py.
+            location = os.path.dirname(location)
+        return location == directory
+    # A namespace package has no file, only the directories it spans.
+    return any(
+        os.path.dirname(os.path.abspath(entry)) == directory
+        for entry in getattr(module, "__path__", [])
+    )
 
 
 def _compile_script(script_path: str) -> CompilerOutput:
